@@ -15,6 +15,13 @@ def exc_outcome(e: BaseException, reg: S.Reg):
     def cid(c):
         return reg.ids.get(c, getattr(c, "__name__", repr(c)))
 
+    # a documented exception must be printable (its message is what a user gets to see)
+    if isinstance(e, (X.InvalidFieldValue, X.MissingField, X.ExtraKeysError, X.MissingDiscriminatorError, X.SuitableVariantNotFoundError)):
+        try:
+            str(e)
+        except Exception as e2:  # noqa
+            return {"kind": "py", "py": "other", "type": f"{type(e).__name__}.__str__ raised {type(e2).__name__}", "msg": str(e2)[:120]}
+
     if isinstance(e, X.InvalidFieldValue):
         return {"kind": "InvalidFieldValue", "field": e.field_name, "value": S.canon(e.field_value, reg), "cls": cid(e.holder_class)}
     if isinstance(e, X.MissingField):
